@@ -52,11 +52,17 @@ def _alarm(signum, frame):
     raise _Timeout()
 
 
+_TIMEOUTS = [0]
+
+
 def _call(fn, *a, **k):
     """-> ('ok', value) | ('recursion', None) | ('timeout', None) | ('raise', exc)"""
     import sys
+    if _TIMEOUTS[0] >= 5:
+        # circuit breaker: the function has already failed to terminate five times in this process; do not spend the whole budget waiting
+        return "timeout", None
     old = signal.signal(signal.SIGALRM, _alarm)
-    signal.alarm(20)
+    signal.alarm(20 if _TIMEOUTS[0] == 0 else 3)
     lim = sys.getrecursionlimit()
     sys.setrecursionlimit(300)  # a legitimate chain in the generated inputs is < 10 deep
     try:
@@ -64,6 +70,7 @@ def _call(fn, *a, **k):
     except RecursionError:
         return "recursion", None
     except _Timeout:
+        _TIMEOUTS[0] += 1
         return "timeout", None
     except Exception as e:  # noqa
         return "raise", e
